@@ -125,8 +125,13 @@ uint8_t get_reg(struct instr *instrc, struct operand *m, int r) {
       m->reg = NO_BASE;
       instrc->no_base = true;
     }
-    if (m->reg == NO_BASE)
+    if (m->reg == NO_BASE) {
+      // without a base register the displacement field is 32 bits wide:
+      // an 8-bit negative displacement has to be sign extended into it
+      if (instrc->mod_disp == MOD8)
+        instrc->mem_offset = (uint32_t)(int8_t)instrc->mem_offset;
       instrc->mod_disp = 0;
+    }
   }
   // check for index register
   if (m->index == reg_none) {
